@@ -1,6 +1,7 @@
 package main
 
 import (
+	"encoding/json"
 	"fmt"
 	"sort"
 	"strings"
@@ -228,6 +229,57 @@ func (cx *Ctx) oracleC18(rs []JobResult) (bool, string, string, string) {
 		what := fmt.Sprintf("monitor %s received event (phase %d, %s, %q) %s; history of %d calls: %s", ev.Monitor, ev.Phase, ev.Alg, ev.Key, when, len(calls), historyText(calls, ocs))
 		return true, key, what, fpOf(key, ev.Monitor, fmt.Sprint(ev.Seq))
 	}
+	// (d) only its OWN call: two calls of the history with identical arguments, each with a fresh recording monitor of its
+	// own, no injected fault, both returned - the two monitors must have seen the same sequence of (phase, algorithm, key).
+	// A monitor that saw more than the monitor of the very same call saw something that was not produced by its call
+	// (events of an earlier, aborted call queued and flushed late are delivered INSIDE the interval of the next monitored
+	// call, so interval containment cannot see them).
+	if lastEnd == 0 {
+		sig := func(c spec.Call) string {
+			b, _ := json.Marshal([]any{c.Edges, c.Opts})
+			return string(b)
+		}
+		stream := func(name string) []string {
+			var out []string
+			for _, ev := range h.Res.Events {
+				if ev.Monitor == name {
+					out = append(out, fmt.Sprintf("%d/%s/%s", ev.Phase, ev.Alg, ev.Key))
+				}
+			}
+			return out
+		}
+		plain := func(i int) bool {
+			c := calls[i]
+			return i < len(ocs) && c.Monitor.Role == "record" && c.Monitor.Fault == "" && c.PanicAtTick == 0 && ocs[i].Verdict == "OK" && c.Opts.P1 != "greedy-random"
+		}
+		for i := range calls {
+			if !plain(i) {
+				continue
+			}
+			for j := i + 1; j < len(calls); j++ {
+				if !plain(j) || sig(calls[i]) != sig(calls[j]) {
+					continue
+				}
+				a, b := stream(monitorName(calls, i)), stream(monitorName(calls, j))
+				if strings.Join(a, "\n") == strings.Join(b, "\n") {
+					continue
+				}
+				d := 0
+				for d < len(a) && d < len(b) && a[d] == b[d] {
+					d++
+				}
+				at := func(x []string) string {
+					if d < len(x) {
+						return x[d]
+					}
+					return "(end of stream)"
+				}
+				what := fmt.Sprintf("calls %d and %d of the history are the same call (same source, same options), each with a recording monitor of its own, both returned; monitor M%d received %d events, monitor M%d received %d; first difference at event %d: %s vs %s - one of them received events its own call did not produce; history of %d calls: %s",
+					i, j, i, len(a), j, len(b), d+1, at(a), at(b), len(calls), historyText(calls, ocs))
+				return true, "events-of-another-call | identical calls, different event streams", what, fpOf("streams", fmt.Sprint(len(a)), fmt.Sprint(len(b)))
+			}
+		}
+	}
 	// passivity
 	for k := 1; k < len(rs); k++ {
 		i := k - 1
@@ -364,7 +416,13 @@ func (cx *Ctx) runC18() {
 				c.Monitor = spec.MonitorSpec{Role: "record", Fault: kind, At: j}
 				after := bases[i]
 				after.Monitor = spec.MonitorSpec{Role: "record"}
-				hjobs = append(hjobs, cx.c18Job(len(hjobs), []spec.Call{c, c18Probe(&r), after, c18Probe(&r)}, false))
+				if j%2 == 0 {
+					// the same call first, un-faulted, with a monitor of its own: its event stream is the yardstick for the
+					// monitor of the identical call made after the aborted one (oracle d)
+					hjobs = append(hjobs, cx.c18Job(len(hjobs), []spec.Call{after, c, c18Probe(&r), after, c18Probe(&r)}, false))
+				} else {
+					hjobs = append(hjobs, cx.c18Job(len(hjobs), []spec.Call{c, c18Probe(&r), after, c18Probe(&r)}, false))
+				}
 				enumerated++
 			}
 		}
